@@ -38,7 +38,7 @@ type schemaLoad struct {
 
 func loadSDL(sdl string) schemaLoad {
 	var l schemaLoad
-	l.root = ggql.NewRoot(nil)
+	l.root = ggql.NewRoot(c16Dummy{})
 	core.Announce("Root.ParseString of:\n" + sdl)
 	l.pi = core.Safe(func() { l.err = l.root.ParseString(sdl) })
 	return l
@@ -46,7 +46,7 @@ func loadSDL(sdl string) schemaLoad {
 
 func loadTypes(s *sgen.Schema) (schemaLoad, bool) {
 	var l schemaLoad
-	l.root = ggql.NewRoot(nil)
+	l.root = ggql.NewRoot(c16Dummy{})
 	var types []ggql.Type
 	var cerr error
 	l.pi = core.Safe(func() { types, cerr = sgen.ToTypes(s) })
@@ -282,7 +282,7 @@ func runC13(c *core.Ctx) {
 			c.Eval()
 			c.R.Distinct++
 			c.Nontrivial()
-			root := ggql.NewRoot(nil)
+			root := ggql.NewRoot(c16Dummy{})
 			var err1, err2 error
 			pi := core.Safe(func() {
 				if err1 = root.ParseString(b.SDL()); err1 == nil {
